@@ -36,6 +36,22 @@ Theorem C18_untar_confined : forall (o : opts) (root : path) (elems : list elem)
 Proof. exact untar_confined. Qed.
 Print Assumptions C18_untar_confined.
 
+(* What the discovery stage of the harness relies on (cmd/vh/c18disc.go): every place the
+   run writes is what the kernel makes of filepath.Join(root, Name) for the Name of a node
+   the decoder yields for this archive -- the writer of the model passes no other path
+   (temporary, partial or lock name) to the kernel.  A writer that does is outside the model;
+   the harness finds such names from a traced run and plants links there. *)
+Theorem C18_writes_only_entry_paths : forall (o : opts) (root : path) (elems : list elem) (fs : node),
+  root <> [] -> Forall real_elem root -> parent_ok root fs -> not_link_at root fs ->
+  let r := untar Fixed o (rootstr root) elems fs in
+  Forall (fun p => beneath root p = true /\
+                   exists nd base, In (nd, base) (nodes_of Fixed elems) /\
+                                   dst_of (rootstr root) (node_name nd) = rootstr p)
+         (w_touched (fst r)) /\
+  (forall q, beneath root q = false -> stat q (w_fs (fst r)) = stat q fs).
+Proof. exact untar_writes_entry_paths. Qed.
+Print Assumptions C18_writes_only_entry_paths.
+
 (* the usual case: the destination exists and is a real directory *)
 Theorem C18_untar_confined_dir : forall (o : opts) (root : path) (elems : list elem) (fs : node),
   root <> [] -> Forall real_elem root -> is_dir_at root fs ->
